@@ -536,18 +536,28 @@ def sequence_case(sh, i):
             systems = [System()]
             mine = {0: make_assets(rng, 'a', rng.randint(1, 5))}
             nsys = rng.choice([1, 2, 2, 3])
+            simulated = set()
             for k in range(1, nsys):
+                if rng.random() < 0.5:
+                    # a system that has already run is superseded afterwards
+                    systems[-1].simulate(rng.choice([1, 2.5]), print_summary=False)
+                    simulated.add(systems[-1])
                 systems.append(System())
                 mine[k] = make_assets(rng, 'bcd'[k - 1], rng.randint(1, 5))
             newest = systems[-1]
-            simulated = set()
             # a superseded system must refuse to simulate
             for s in systems[:-1]:
+                t_before = s.env.now
                 try:
                     s.simulate(1, print_summary=False)
-                    lc.fail('superseded_system_simulated', 'an older System simulated although a newer one exists')
+                    lc.fail('superseded_system_simulated', 'an older System (%s) simulated although a newer one exists'
+                            % ('which had already run' if s in simulated else 'which had never run'))
                 except RuntimeError:
                     sh.count('superseded_system_rejected')
+                    if s in simulated:
+                        sh.count('superseded_after_running_rejected')
+                    if s.env.now != t_before:
+                        lc.fail('superseded_system_simulated', 'the rejected System advanced its clock')
             late = []
 
             def create_late():
